@@ -16,6 +16,7 @@ spins is not stopped.  Callbacks are outside fragment F0; the wall-clock oracle 
 import Anko.Proofs.EvalPoll
 import Anko.Gen.ChanOps
 import Anko.Proofs.EvalCall
+import Anko.Proofs.EvalIntr
 
 set_option linter.unusedSectionVars false
 set_option linter.unusedSimpArgs false
@@ -133,6 +134,94 @@ theorem program_after_cancel (fuel : Nat) (p : Stmt) (s : St) (hc : s.cancelled 
   unfold runProgram
   rw [stmt_after_cancel fuel p s hc]
   simp [interrupted, St.poll, hd]
+
+/-! ### No construct swallows the interruption (whole evaluator, every program, every cancellation point)
+
+`St.seen r` says that some context poll of the run so far has returned "cancelled" (the poll
+counter has passed `cancelAt`).  The theorems below hold for EVERY program, fuel, cancellation
+point and start state - the cancellation may land at any poll of the run, inside any nesting of
+calls, loops, `try`, `??` and deferred calls.  `errS` = the error register holds the interrupt or
+a real error (never "no error", never break / continue / return, which a loop or a function
+would consume); `errW` = anything the host sees as a failure.  Proved for all 28 functions of the
+evaluator at once (Proofs/EvalIntr.lean, `intr_all`). -/
+
+/-- A statement never ends "successfully" (or with a control signal) once a poll has observed the
+cancellation: whatever the statement and the state it starts in. -/
+theorem stmt_never_swallows (fuel : Nat) (st : Stmt) (s : St)
+    (hseen : (execStmt fuel st s).seen = true) (hfrag : (execStmt fuel st s).unsup = none) :
+    errS (execStmt fuel st s).err = true :=
+  (intr_all fuel).execStmt st s hseen hfrag
+
+/-- The same for an expression evaluated in a state where the cancellation had not been observed
+yet (the way every statement evaluates its expressions): `??`, `?:`, `&&`, calls ... cannot turn
+an observed cancellation into a value. -/
+theorem expr_never_swallows (fuel : Nat) (e : Expr) (s : St) (h0 : s.seen = false)
+    (hseen : (evalExpr fuel e s).seen = true) (hfrag : (evalExpr fuel e s).unsup = none) :
+    errS (evalExpr fuel e s).err = true :=
+  (intr_all fuel).evalExpr e s (by intro h; simp [h0] at h) hseen hfrag
+
+/-- A script function whose invocation observed the cancellation (in its body, in a callee, in one of
+its deferred calls) hands an error to its caller - it never returns a value. -/
+theorem invocation_never_swallows (fuel : Nat) (f : Val) (args : List RV) (cs : Bool) (s : St) (h0 : s.seen = false)
+    (hseen : (callFn fuel f args cs s).seen = true) (hfrag : (callFn fuel f args cs s).unsup = none) :
+    errS (callFn fuel f args cs s).err = true :=
+  (intr_all fuel).callFn f args cs s (by intro h; simp [h0] at h) hseen hfrag
+
+/-- Deferred calls still run after an observed cancellation (with the error parked), and the parked
+error is put back: the invocation still fails. -/
+theorem deferred_calls_keep_the_failure (fuel : Nat) (ds : List Deferred) (rv : RV) (err : Option Err) (s : St)
+    (hpark : s.seen = true → s.unsup = none → errW err = true)
+    (hseen : (runDefers fuel ds rv err s).seen = true) (hfrag : (runDefers fuel ds rv err s).unsup = none) :
+    errW (runDefers fuel ds rv err s).err = true :=
+  (intr_all fuel).runDefers ds rv err s hpark hseen hfrag
+
+/-- THE RUN: if any poll of a run observed the cancellation, `RunContext` returns an error to the
+host - for every program, every fuel, every cancellation point, every start state.  (The error
+is the interrupt, or - when the cancellation was first observed inside a deferred call of an
+invocation whose body had already failed - that body's own error.) -/
+theorem program_never_swallows (fuel : Nat) (p : Stmt) (s : St)
+    (hseen : (runProgram fuel p s).seen = true) (hfrag : (runProgram fuel p s).unsup = none) :
+    errW (runProgram fuel p s).err = true := by
+  have h1 : Inv (execStmt fuel p s) := (intr_all fuel).execStmt p s
+  have h2 : InvW (if (execStmt fuel p s).defers.isEmpty then execStmt fuel p s
+      else runDefers fuel (execStmt fuel p s).defers.reverse (execStmt fuel p s).rv (execStmt fuel p s).err
+        { execStmt fuel p s with defers := [] }) := by
+    split
+    · intro a b; exact errW_of_errS _ (h1 a b)
+    · exact (intr_all fuel).runDefers _ _ _ _ (fun a b => errW_of_errS _ (h1 a b))
+  unfold runProgram at hseen hfrag ⊢
+  simp only [] at hseen hfrag ⊢
+  split at hseen <;> split at hfrag <;> split <;> simp_all [InvW, St.seen, errW]
+
+theorem later_runProgram (fuel : Nat) (p : Stmt) (s : St) : Later s (runProgram fuel p s) := by
+  have h1 := (poll_all fuel).execStmt p s
+  have h2 := (poll_all fuel).runDefers (execStmt fuel p s).defers.reverse (execStmt fuel p s).rv (execStmt fuel p s).err
+    { execStmt fuel p s with defers := [] }
+  have h3 : Later s (runDefers fuel (execStmt fuel p s).defers.reverse (execStmt fuel p s).rv (execStmt fuel p s).err
+    { execStmt fuel p s with defers := [] }) := ⟨h2.1.trans h1.1, Nat.le_trans h1.2 h2.2⟩
+  unfold runProgram
+  simp only []
+  by_cases hd : (execStmt fuel p s).defers.isEmpty = true
+  · simp only [hd, if_true]; split <;> first | exact h1 | exact ⟨h1.1, h1.2⟩
+  · simp only [hd]; split <;> first | exact h3 | exact ⟨h3.1, h3.2⟩
+
+/-- ... and hence a run that ended without an error never observed the cancellation: every poll it
+made came before the cancellation point (contrapositive, the form the harness checks per poll index). -/
+theorem successful_run_polled_before_cancel (fuel : Nat) (p : Stmt) (s : St) (k : Nat)
+    (hk : s.cancelAt = some k) (hfrag : (runProgram fuel p s).unsup = none)
+    (hok : (runProgram fuel p s).err = none) : (runProgram fuel p s).polls ≤ k := by
+  have h := program_never_swallows fuel p s
+  by_cases hs : (runProgram fuel p s).seen = true
+  · have := h hs hfrag; rw [hok] at this; simp [errW] at this
+  · have hl := later_runProgram fuel p s
+    unfold St.seen seenOf at hs
+    rw [hl.1, hk] at hs
+    simp at hs
+    exact hs
+
+/-! Non-vacuity: a closed program on which the cancellation lands in the middle (poll 2 of 4). -/
+example : ∃ s : St, s.seen = false ∧ (s.poll.2.poll.2.poll.2).seen = true :=
+  ⟨St.init (some 2), by decide, by decide⟩
 
 /-! ### Blocking channel operations (facts regenerated from vm/*.go on every run) -/
 
